@@ -8,7 +8,8 @@ TraceLog == ndJsonDeserialize(TTraceFile)
 VARIABLES l, viol, cover, produced, received, ended
 tvars == <<l, viol, cover, produced, received, ended>>
 Line == TraceLog[l]
-Cls(e) == IF e.carr = e.decl THEN "eq" ELSE IF e.carr < e.decl THEN "short" ELSE "long"
+Closing(e) == "closing" \in DOMAIN e /\ e.closing
+Cls(e) == IF Closing(e) THEN (IF e.apart THEN "closing-apart" ELSE "closing-coalesced") ELSE IF e.carr = e.decl THEN "eq" ELSE IF e.carr < e.decl THEN "short" ELSE "long"
 
 TInit == l = 1 /\ viol = {} /\ cover = {} /\ produced = 0 /\ received = 0 /\ ended = FALSE
 TReset == Line.ev = "reset" /\ produced' = 0 /\ received' = 0 /\ ended' = FALSE /\ UNCHANGED <<viol, cover>>
@@ -19,9 +20,11 @@ TC2B == /\ Line.ev = "c2b"
                       \cup (IF ~ended /\ Line.carr >= Line.decl /\ ~(Line.got = Line.decl /\ Line.prefix) THEN {"G_C06_DeclaredPayloadForwarded"} ELSE {})
                       \cup (IF Line.carr < Line.decl /\ ~(Line.got <= Line.carr /\ Line.prefix) THEN {"G_C06_NoInventedBytes"} ELSE {})
                       \cup (IF ~ended /\ Line.carr >= Line.decl /\ Line.end THEN {"G_C06_WellFormedDataKeepsChannel"} ELSE {})
+                      \* the data was followed by an orderly CLOSE_CHANNEL: what was sent before closing has been delivered
+                      \cup (IF ~ended /\ Closing(Line) /\ ~(Line.got = Line.decl /\ Line.prefix) THEN {"G_C06_DeliveredBeforeClose"} ELSE {})
            IN viol' = viol \cup {<<l, g, Line.transport, Cls(Line)>> : g \in bad}
         /\ cover' = cover \cup {<<"c2b", Line.transport, Cls(Line)>>}
-        /\ ended' = (ended \/ Line.end)
+        /\ ended' = (ended \/ Line.end \/ Closing(Line))
         /\ UNCHANGED <<produced, received>>
 \* the host wrote n more bytes; until quiescence the client received npk DATA packets
 \* carrying rcv bytes; prefix = the concatenated payloads continue the produced stream exactly
